@@ -20,6 +20,7 @@ def run(chk):
     from ..run import run_parallel
     run_parallel(chk, 'hv.props.c11', 'kernel_laws', [(n, c, thorough) for n, c in configs])
     e_uni(chk, thorough)
+    if thorough: beyond_bound(chk)
 
 def kernel_laws(chk, cfg):
     n, c, thorough = cfg
@@ -144,3 +145,22 @@ def e_uni(chk, thorough):
                     chk.obligation(full, 'E-UNI', 'violated'); chk.violation(full, 'library-reachability', {'instance': inst.name, 'aeon': inst.aeon, 'colour': colour, 'state': state, 'tool': a1, 'library': a2}, f'{name}: differ at state {state} of the witness colour')
                 else: chk.obligation(full + ' (does not reproduce)', 'E-UNI', 'inconclusive')
             else: chk.obligation(full, 'E-UNI', 'timeout', v.seconds)
+
+
+def beyond_bound(chk):
+    """native only (no solver, outside the claim): the law formulas on the bundled 13-variable model evaluate to the unit set"""
+    import os
+    from .. import front
+    path = os.path.join(front.REPO, 'test', 'model-010-13var-2in.aeon')
+    if not os.path.exists(path): return
+    aeon = open(path).read()
+    w, p_ = 'v_Mesp1 & ~v_Isl1', 'v_Tbx5 | v_Fgf8'
+    laws = ['(EF %w%) <=> (%w% | EX EF %w%)', '(EG %w%) <=> (%w% & EX EG %w%)', '(%w% AU %p%) <=> (%p% | (%w% & AX (%w% AU %p%)))', '(%w% EU %p%) <=> (%p% | (%w% & EX (%w% EU %p%)))',
+            '(AF %w%) <=> ~EG ~%w%', '(AG %w%) <=> ~EF ~%w%', '(AX %w%) <=> ~EX ~%w%', '(EF (%w% & %p%)) => EF %w%', '(%w% EW %p%) <=> ((%w% EU %p%) | EG %w%)', '(%w% AW %p%) <=> ~(~%p% EU (~%w% & ~%p%))']
+    job = {'op': 'mc', 'aeon': aeon, 'k': 0, 'context': {'w': {'t': 'mc', 'f': w}, 'p': {'t': 'mc', 'f': p_}}, 'runs': [{'entry': 'ext_dirty', 'formulas': [f]} for f in laws]}
+    ans = front.native([job], timeout=1800)[0]
+    if 'fatal' in ans or 'fatal_panic' in ans: chk.obligation('C11/native 13-variable model', 'native (beyond bound)', 'inconclusive'); return
+    for f, r in zip(laws, ans['runs']):
+        name = f'C11/native (beyond the bound, 13-variable bundled model, %w% := {w}, %p% := {p_}): {f} == true'
+        if r.get('ok') == ans['unit']: chk.obligation(name, 'native (beyond bound)', 'holds', 0.0, False, {'claim': 'result BDD identical to the unit BDD'})
+        else: chk.obligation(name, 'native (beyond bound)', 'violated'); chk.violation(name, 'law-13var', {'model': 'test/model-010-13var-2in.aeon', 'law': f, 'answer': {k: v for k, v in r.items() if k != 'ok'}}, f'law {f} does not evaluate to the unit set on the bundled model')
